@@ -138,7 +138,22 @@ def _hourly_output_case(seed):
             gf3, _ = g3.grab_g_function(g3.B_spacing / float(g3.bhe.b.H))
             gf_rows = [(float(r[0]), float(r[1])) for r in out3.g_function_data_rows[1:]]
             curve3 = list(zip([float(x) for x in gf3.x], [float(y) for y in gf3.y]))
-        return {"rows": rows, "loads": reference, "rows2": rows2, "loads2": reference2, "first_table_unchanged": rows_again == rows,
+            # the same field given in site coordinates (origin inside the lot): negative values, rotation round-off, tiny offsets - the bore
+            # field table echoes them as they are
+            site = [(-52.63, -20.96), (-47.63, 1.0e-9), (-3.552713678800501e-15, 4.04), (0.0, -0.0005), (12.5, 7.25)]
+            g4 = _mk_real_ghe(1, 1, 100.0, months=12, amp=4321.0)
+            g4.simulate(method=TimestepType.HYBRID)
+            g4.field_type, g4.fieldSpecifier = "rowwise", "site"
+            g4.gFunction.bore_locations = list(site)
+            out4 = OutputManager(SimpleNamespace(ghe=g4, searchTracker=[["site", 0.0, 0.0, 0.0]]), 0.0, "p", "n", "a", "m", load_method=TimestepType.HYBRID)
+            d4 = Path(tempfile.mkdtemp(prefix="c19s-", dir=BUILD))
+            try:
+                out4.write_all_output_files(d4)
+                with open(d4 / "BoreFieldData.csv", newline="") as f:
+                    site_rows = [[float(a), float(b)] for a, b in list(csv.reader(f))[1:]]
+            finally:
+                shutil.rmtree(d4, ignore_errors=True)
+        return {"site": [list(x) for x in site], "site_rows": site_rows,"rows": rows, "loads": reference, "rows2": rows2, "loads2": reference2, "first_table_unchanged": rows_again == rows,
                 "gf_rows": gf_rows, "curve3": curve3}
     except Exception as ex:  # noqa: BLE001
         return {"error": f"{type(ex).__name__}: {ex}"}
@@ -263,6 +278,8 @@ def run_c19() -> int:
             chk.violation(f"C19 Loadings table of a second report in the same process does not echo that field's own loads (rows {len(o['rows2'])}, first mismatch {bad2})", {"mismatch": bad2})
         if any(b[0] <= a[0] for a, b in zip(o["gf_rows"], o["gf_rows"][1:])):
             chk.violation("C19 Gfunction table of a shallow (62 m) field: time column not strictly increasing", {})
+        if o["site_rows"] != o["site"]:
+            chk.violation(f"C19 BoreFieldData table of a field given in site coordinates differs from the field's coordinates: {o['site_rows']} vs {o['site']}", {"table": o["site_rows"], "field": o["site"]})
         if o["gf_rows"] != o["curve3"]:
             chk.violation(f"C19 Gfunction table of a shallow (62 m) field differs from the curve used in the simulation ({len(o['gf_rows'])} rows vs {len(o['curve3'])} points)", {"table": o["gf_rows"][:4], "curve": o["curve3"][:4]})
         if not o["first_table_unchanged"]:
